@@ -1231,7 +1231,12 @@ class MemoryCache:
     def put(self, memento: Memento, result: object, has_result: bool):
         cache_key = self._cache_key_for_memento(memento)
         if has_result:
+            # Drop any reference to a previous result for this call before recording the new one
+            self.refs.pop(cache_key, None)
             self._put_ref(cache_key, result)
+
+        # Remove any existing cached items for this memento
+        self._evict(cache_key)
 
         # If the object is too big to fit in the cache, return immediately
         obj_size = self._estimate_object_size(result)
@@ -1244,9 +1249,6 @@ class MemoryCache:
         if isinstance(result, pd.DataFrame) or isinstance(result, pd.Series):
             result = result.copy()
             self._put_ref(cache_key, result)
-
-        # Remove any existing cached items for this memento
-        self._evict(cache_key)
 
         # Free up memory in the cache (if needed) by discarding LRU
         while (
